@@ -126,9 +126,25 @@ def run(ctx):
     ctx.rule("RAW-1", "in the bracket-class printer no member is formatted as a raw char outside the class escaper (a raw backslash or bracket makes the pattern invalid)")
     classprinter.raw1(ctx, lib, class_escape_closures(lib))
     # ESC-3 (shared with C01): an unescaped metacharacter in a nested repetition makes the pattern invalid
-    from .C01 import esc3
+    from .C01 import esc3, esc4
     ctx.rule("ESC-3", "if the grapheme printer is recursive over nested repetitions, escaping descends as deep, on every path")
+    ctx.rule("ESC-4", "the printer prints a grapheme's own text only where it was escaped: under the same emptiness test of the nested repetitions that the escaping dispatch uses")
     esc3(ctx, lib)
+    esc4(ctx, lib)
+    # VWS-1/2 (shared with C06): under (?x) every ignored character is rewritten to an escape of exactly itself, in literals and in bracket classes
+    from .C06 import vws
+    ctx.rule("VWS-1", "on every verbose path each character the engine ignores under (?x) (White_Space, '#') is rewritten, in literals and as a bracket-class member")
+    ctx.rule("VWS-2", "each such rewrite denotes exactly the character it replaces")
+    vws(ctx, prog, lib, common.role_fields(ctx, lib, want=common.FMT_ROLES), with_cas=False)
+    # ESCP-2 (b), shared with C11: the literal printer applies the escaper on every path before it prints a grapheme
+    from .C11 import literal_printer_escapes
+    from .C01 import find_escape_entry as _fee
+    ctx.rule("ESCP-2", "every literal is escaped before printing: the literal printer calls the symbol escaper on the grapheme or on each of its repetitions on every path")
+    _hits = _fee(lib)
+    if len(_hits) == 1:
+        literal_printer_escapes(ctx, lib, _hits[0])
+    else:
+        ctx.anchor_lost("ESCP-2", "symbol escaper")
     # PAN-6 capacity of the automaton's index type
     ctx.rule("PAN-6", "every node/edge insertion into the automaton's graph uses an index type of at least 32 bits: petgraph panics when the index space is exhausted, "
                       "and the trie has one state per distinct prefix of the test cases (thousands of test cases exceed 65535)")
